@@ -73,6 +73,18 @@ def public_effects(run):
     return f
 
 
+def replay_any(ctx, data, monitor_fns, sampler=None):
+    """Replay dispatcher for checks that also run other front-ends' sub-checks."""
+    case = data.get('case') or {}
+    if isinstance(case, dict) and 'scenario' in case:
+        from harness.props import c19
+        return c19.replay(ctx, data)
+    if isinstance(case, dict) and case.get('kind') in ('dl', 'up'):
+        from harness.props import legacy
+        return legacy.replay(ctx, data)
+    return replay_spec(ctx, data, monitor_fns, sampler) if sampler is not None else replay_spec(ctx, data, monitor_fns)
+
+
 def run_specs(ctx, prop_file, specs, monitor_fns, sampler=None, rule=''):
     """The whole flow for one property."""
     ok = common.proofs(ctx, prop_file, EXTRACT, COMPONENTS)
@@ -217,6 +229,9 @@ def specs_faults(ctx, kinds, seeds=2, cfg=None, tag='f'):
                     out.append(dict(transfers=[ts], cfg=cfg, chooser=ch,
                                     get_fault=dict(range_idx=sd % 2, attempts=att, after=1 + sd, exc='timeout', read_sizes=[2, 1, 3])))
                 out.append(dict(transfers=[ts], cfg=cfg, chooser=ch, get_fault=dict(range_idx=1, attempts=1, after=1, exc='fatal')))
+                # an OSError that is NOT one of the retryable stream errors (must not be retried)
+                out.append(dict(transfers=[ts], cfg=cfg, chooser=ch, get_fault=dict(range_idx=sd % 2, attempts=1, after=1, exc='oserror')))
+                out.append(dict(transfers=[dict(ts, subs=[dict(raise_in=['progress'], raise_exc='oserror')])], cfg=cfg, chooser=ch))
             if ts['kind'] == 'upload' and ts.get('src') != 'path':
                 for nth in (1, 2, 3):
                     out.append(dict(transfers=[ts], cfg=cfg, chooser=ch, read_fault=dict(nth=nth)))
